@@ -22,7 +22,17 @@ pub broadcast proof fn axiom_u256_of(n: nat)
 pub broadcast proof fn axiom_u256_ext(x: U256, y: U256)
     requires x@ == y@
     ensures #[trigger] x@ == #[trigger] y@ ==> x == y {}
-pub broadcast group group_u256 { axiom_u256_range, axiom_u256_of }
+pub open spec fn u256_div_u64(x: U256, d: u64) -> U256 { u256_of(x@ / (d as nat)) }
+// proved (not assumed): the quotient of a U256 by a non-zero u64 is again in range
+pub broadcast proof fn lemma_u256_div_in_range(x: U256, d: u64)
+    requires d != 0
+    ensures (#[trigger] u256_div_u64(x, d))@ == x@ / (d as nat)
+{
+    axiom_u256_range(x);
+    assert(x@ / (d as nat) <= x@) by(nonlinear_arith) requires d != 0;
+    axiom_u256_of(x@ / (d as nat));
+}
+pub broadcast group group_u256 { axiom_u256_range, axiom_u256_of, lemma_u256_div_in_range }
 
 pub open spec fn sat_mul(a: nat, b: nat) -> nat { if a * b < pow256() { a * b } else { u256_max() } }
 
@@ -73,7 +83,7 @@ impl Ord for U256 { #[verifier::external_body] fn cmp(&self, o: &U256) -> core::
 impl vstd::std_specs::ops::DivAssignSpecImpl<u64> for U256 {
     open spec fn obeys_div_assign_spec() -> bool { true }
     open spec fn div_assign_req(&self, rhs: u64) -> bool { rhs != 0 }
-    open spec fn div_assign_spec(&self, rhs: u64) -> &U256 { &u256_of(self@ / (rhs as nat)) }
+    open spec fn div_assign_spec(&self, rhs: u64) -> &U256 { &u256_div_u64(*self, rhs) }
 }
 impl core::ops::DivAssign<u64> for U256 { #[verifier::external_body] fn div_assign(&mut self, rhs: u64) { unimplemented!() } }
 
